@@ -9,5 +9,7 @@ GenNext == Next /\ hist' = Append(hist, ev')
 GenSpec == GenInit /\ [][GenNext]_<<vars, hist>>
 \* one witness history per distinct (state, last event): hides only the history
 GenView == vars
-Emit == AllDone => PrintT("TRACE " \o ToJson([h |-> hist]))
+\* emitted when the last call has its result but has not returned yet: the Return step forgets the last
+\* reply (two histories that differ only there would be merged by the VIEW), so the result travels separately
+Emit == (pc = "done" /\ calls = MaxCalls) => PrintT("TRACE " \o ToJson([h |-> hist, res |-> res]))
 =============================================================================
